@@ -169,7 +169,7 @@ Qed.
 
 (* ---- executable protocol model with checked guards (tests, see the Examples) ------------------------------ *)
 Inductive visit :=
-| Walk (target my_child other_parent other_item other_rank : Z)
+| Walk (cb : bool) (target my_child other_parent other_item other_rank : Z)   (* cb: the walk of async_union_and_execute *)
 | UpdParent (target new_parent : Z)
 | Resolve (target merging_item merging_rank : Z).
 
@@ -185,7 +185,7 @@ Definition guarded_set (t : table) (x p : Z) : option table :=
 
 Definition exec (t : table) (v : visit) : option (table * list visit) :=
   match v with
-  | Walk me child op oi orank =>
+  | Walk cb me child op oi orank =>
       let t := ensure t me in
       match lookup t me with
       | None => None
@@ -193,15 +193,15 @@ Definition exec (t : table) (v : visit) : option (table * list visit) :=
           let my_rank := irank i in let my_parent := iparent i in
           let s0 := if child =? me then [] else [UpdParent child my_parent] in
           if (my_parent =? op) || (my_parent =? oi) then Some (t, s0)
-          else if orank <? my_rank then Some (t, s0 ++ [Walk op oi my_parent me my_rank])
+          else if orank <? my_rank then Some (t, s0 ++ [Walk cb op oi my_parent me my_rank])
           else if my_rank =? orank then
             if my_parent =? me then
-              if me <? op then match guarded_set t me op with Some t' => Some (t', s0 ++ [Resolve op me my_rank]) | None => None end
-              else Some (t, s0 ++ [Walk op oi my_parent me my_rank])
-            else Some (t, s0 ++ [Walk my_parent me op oi orank])
+              if me <? op then match guarded_set t me op with Some t' => Some (t', s0 ++ (if cb then [] else [Resolve op me my_rank])) | None => None end
+              else Some (t, s0 ++ [Walk cb op oi my_parent me my_rank])
+            else Some (t, s0 ++ [Walk cb my_parent me op oi orank])
           else
             if my_parent =? me then match guarded_set t me op with Some t' => Some (t', s0) | None => None end
-            else Some (t, s0 ++ [Walk my_parent me op oi orank])
+            else Some (t, s0 ++ [Walk cb my_parent me op oi orank])
       end
   | UpdParent me np =>
       let t := ensure t me in
@@ -238,7 +238,9 @@ Fixpoint run_pool (fuel : nat) (pick : nat -> nat -> nat) (t : table) (pool : li
       end
   end.
 
-Definition unions (es : list (Z * Z)) : list visit := map (fun '(a, b) => Walk a a b b (-1)) es.
+(* the initial visits: (cb, (a, b)) is async_union(a, b) or, with cb, async_union_and_execute(a, b, ...) *)
+Definition unionsb (l : list (bool * (Z * Z))) : list visit := map (fun '(cb, (a, b)) => Walk cb a a b b (-1)) l.
+Definition unions (es : list (Z * Z)) : list visit := unionsb (map (pair false) es).
 Definition root_of (t : table) (x : Z) : option Z := find (S (length t)) t x.
 Fixpoint inv_b (t all : table) : bool :=
   match t with
@@ -256,7 +258,7 @@ Definition orders : list (nat -> nat -> nat) :=
   [fun _ _ => O; fun _ n => Nat.pred n; fun f _ => f; fun f n => Nat.mul f 7 + 3]%nat.
 Example protocol_runs_ok :
   forallb (fun pick =>
-    match run_pool 4000 pick [] (unions test_edges) with
+    match run_pool 4000 pick [] (unionsb (map (pair (Nat.even (pick 3 5)%nat)) test_edges)) with
     | Some (t, _) =>
         inv_b t t &&
         match root_of t 1, root_of t 13, root_of t 24, root_of t 20, root_of t 30, root_of t 31, root_of t 32 with
